@@ -19,6 +19,7 @@ WEAVER_CASES = (
     "interpolate:unknown-method", "interpolate:neither-n-nor-grid", "interpolate:first-end-differs",
     "interpolate:last-end-differs",
     "truncate_by_value:left>=right", "truncate_by_value:left>=right(ratios)", "truncate_by_value:left==right",
+    "truncate_by_value:empty-for-some-series(ratio-left)", "truncate_by_value:empty-for-some-series(ratio-right)",
     "truncate_by_index:start<0", "truncate_by_index:stop>len",
     "slice_by_index:start<0", "slice_by_index:stop>len",
     "slice_by_value:start-not-a-sample", "slice_by_value:stop-not-a-sample",
@@ -65,6 +66,21 @@ def invoke(ctx, w, case, name):
         else:
             g[2] = g[2] + d
         return w.interpolate(new_x=arr(ctx, g))
+    if case.startswith("truncate_by_value:empty-for-some-series"):
+        # mixed absolute / ratio bounds: the requested range is empty or inverted for at least one of the two
+        # series the operation has to cut (working, reference)
+        l, r = ctx.real("l"), ctx.real("r")
+        lr, rr = ("ratio-left" in case), ("ratio-right" in case)
+        conds = []
+        for series in (w.x, w.reference_x):
+            S = [ctx.exact(v) for v in series] if not ctx.symbolic else list(series)
+            span = S[-1] - S[0]
+            L_, R_ = (ctx.exact(l) if not ctx.symbolic else l), (ctx.exact(r) if not ctx.symbolic else r)
+            la = L_ * span + S[0] if lr else L_
+            ra = R_ * span + S[0] if rr else R_
+            conds.append(la >= ra)
+        ctx.assume(ctx.Or(*conds))
+        return w.truncate_by_value(l, r, x_left_as_ratio=lr, x_right_as_ratio=rr)
     if case.startswith("truncate_by_value"):
         l, r = ctx.real("l"), ctx.real("r")
         if case.endswith("left==right"):
@@ -100,7 +116,7 @@ class Rejected(Family):
         out = []
         Ls = (4,) if tier == "quick" else (4, 5)
         for L in Ls:
-            for kind in ("fresh", "tracked", "reshaped"):
+            for kind in ("fresh", "tracked", "reshaped", "reshaped-other-range"):
                 for case in WEAVER_CASES:
                     names = BAD_NAMES if ("unknown" in case) else (None,)
                     if case.startswith("recreate:n="):
